@@ -345,6 +345,9 @@ def codec_inputs(F, rnd):
                 if pos > 0: m[pos] |= 0x20; outs.append((compressed, bytes(m)))
             if pt is None:
                 m = bytearray(e); m[-1] = 1; outs.append((compressed, bytes(m)))
+                # stray payload in an infinity encoding that cancels under xor / wrapping sum (a zero test written as a fold; seed C05-6)
+                for (i1, v1), (i2, v2) in (((1, 1), (2, 1)), ((len(e) - 1, 0x80), (len(e) - 2, 0x80)), ((5, 0xff), (7, 0xff)), ((3, 0x01), (4, 0xff)), ((1, 0x10), (len(e) - 1, 0x10))):
+                    m = bytearray(e); m[i1] = v1; m[i2] = v2; outs.append((compressed, bytes(m)))
         for xv in range(0, 6):                               # small x: off-subgroup points, x without root
             x = xv if F is F1 else (xv, 0)
             blocks = [x] if n == 1 else [x[1], x[0]]
@@ -937,6 +940,32 @@ def refute_prime_field(binp):
                         return dict(function=f'{F}::from_repr', input=kv, actual='|'.join(tag[6:]), expected='|'.join(exp_t), command=cmd)
     return None
 
+
+def refute_map(binp):
+    """map2_to_curve(u0, u1) == map_to_curve(u0) + map_to_curve(u1) (cofactor clearing is additive) and every output in the subgroup, on zero / one / -1 / equal / random inputs
+    (C14 stand-in: short-cuts for special inputs live outside the unit's subset)"""
+    rnd = random.Random(31)
+    for g in ('g1', 'g2'):
+        if g == 'g1':
+            vals = [0, 1, Q - 1, 2, rnd.randrange(Q), rnd.randrange(Q)]
+            kvf = lambda n, v: {n: hex(v)}
+        else:
+            vals = [(0, 0), (1, 0), (0, 1), (Q - 1, 0), (0, Q - 1), F2.rand(rnd), F2.rand(rnd)]
+            kvf = lambda n, v: {n + '__c0': hex(v[0]), n + '__c1': hex(v[1])}
+        for i, a in enumerate(vals):
+            for b in (a, vals[0], vals[(i + 1) % len(vals)], vals[-1]):
+                kv = dict(g=g)
+                kv.update(kvf('u0', a)); kv.update(kvf('u1', b))
+                out, cmd = run_bin(binp, 'map', kv)
+                if 'error' in out:
+                    continue
+                o = out.get('out', [])
+                if out.get('tag') != 'true|true|true':
+                    return dict(function=f'{g}:map_to_curve/map2_to_curve:in_subgroup', input=kv, actual=out.get('tag'), expected='true|true|true', command=cmd)
+                if len(o) == 4 and o[2] != o[3]:
+                    return dict(function=f'{g}:map2_to_curve', input=kv, actual=o[2], expected='map(u0) + map(u1) = ' + o[3], command=cmd)
+    return None
+
 # ---- stand-ins: functions that no contract reaches are driven on structured inputs against the independent reference on EVERY run.
 # They are tests, not proofs: reported separately in the evidence (coverage.stand_ins), never counted as obligations.
 STANDINS = {
@@ -957,6 +986,8 @@ STANDINS = {
     'prime_field_api': (refute_prime_field, "(cross-check: the field and representation operations are under contract in units mont / kani:limbs) Fq, Fr, FqRepr, FrRepr through method-call syntax on the concrete types - "
                         "what a contract on the trait method cannot see is an inherent method of the same name taking over the call sites: is_zero / is_odd / num_bits / cmp / div2 / shr / mul2 / shl, from_repr, add / sub / mul / square / negate / double / inverse, "
                         "pow with exponents of 0..12 limbs; values 0, 1, M-1, M, M+1, 2^(64k), single-limb Montgomery forms, random"),
+    'map_to_curve_api': (refute_map, "(cross-check: map_to_curve / map2_to_curve are under contract in unit h2c) map2_to_curve(u0, u1) against map_to_curve(u0) + map_to_curve(u1) with the real addition, all outputs in the subgroup: u in {0, 1, -1, u, -u, 2, random}, equal inputs, one input zero"),
+    'decoders_api': (lambda binp: refute_codec(binp, {'C04'}), "(cross-check: the decoders are under contract in unit codec) into_affine / into_affine_unchecked of the four encodings against the reference decoder: valid points, flipped flag bits, non-reduced and over-long coordinates, off-curve and off-subgroup points, infinity encodings with stray payload bytes (single bytes, byte pairs that cancel under xor / sum)"),
     'encoders_api': (lambda binp: refute_encode(binp), "into_compressed / into_uncompressed through the public API on random points, both roots, small x, y in Fq / purely imaginary, the identity, with non-trivial Z"),
 }
 
